@@ -49,6 +49,9 @@ CHECKS = {
  "C06": dict(cat="model_checking", tech="TLA+ time-control design model (TimeControl.tla) model-checked by TLC + TLC validation of hook traces of the real engine under a node-driven virtual clock (Tr_Time.tla)",
    text="TimeControl.tla states the contract (envelope 1 <= soft <= hard <= budget, poll at most K ticks apart, stop rule) and TLC checks Deadline / prompt stop / prompt ponderhit for all small parameter values. The hooked engine is run under a virtual clock that advances only with searched nodes (deterministic, no wall clock) on log-uniformly drawn go parameters (wtime/btime 1..1e7, increments, movestogo, movetime, BufferTime 1..10000, Ponder, Threads 1..4, one-move and many-move roots; plain / stop / ponderhit / ponder+stop). TLC validates: the limits handed to the search (hook in startThread / ponderHit) satisfy the envelope with budget = movetime resp. max(1, clock - min(BufferTime, 9*clock/10)); bestmove no later than start + hard + slack; within slack after stop, and after ponderhit once the limits are exhausted.",
    note="Trusted: TLC, TimeControl.tla/Tr_Time.tla, sched/vsched.cpp virtual clock. MaxNPS is not exercised (its sleep is real time). Slack = 3 polling intervals + 5 virtual ms."),
+ "C08": dict(cat="model_checking", tech="TLA+ two-word slot model (TTSlot.tla, TLC exhaustive) + index lemma (TTIndex.tla, Apalache, all sizes) + TLC validation of traces of the real table (Tr_TT.tla)",
+   text="TTSlot.tla models a slot as two independently ordered word accesses per store/load with XOR as symmetric difference; TLC exhausts 2 writers x 1 prober and proves HitIsAUnit (and refutes the un-xored variant as a vacuity control). TTIndex.tla states the index function for arbitrary sizes; Apalache discharges IndexSafe over unbounded integers. On the real TranspositionTable TLC validates: every distinct result of ~10^8 concurrent stores/probes by 2..16 threads on <=3 buckets is a catalogue unit stored for exactly that key; index records for 39 table sizes (1..256 MB, non powers of two, the reduced size with a resident tablebase) x boundary key bits equal the formula and are safe; mate scores stored at ply p and read at ply q shift by q-p; a resident tablebase region is byte-identical after 6M ordinary stores.",
+   note="Trusted: TLC, Apalache (index lemma), TTSlot/TTIndex/Tr_TT specs, harness/h_tt.cpp. Hardware reordering of relaxed stores is covered by the model only."),
 }
 
 NOT_APPLICABLE = {
